@@ -105,20 +105,22 @@ Proof.
   - apply lookup_some in E. unfold entry_ok in E.
     apply andb_true_iff in E. destruct E as [E _].
     apply andb_true_iff in E. destruct E as [E _].
+    apply andb_true_iff in E. destruct E as [E _].
     apply andb_true_iff in E. destruct E as [E1 E2].
     apply optN_eqb_eq in E2. split; congruence.
   - apply lookup_none in E. destruct E as [E1 E2]. split; congruence.
 Qed.
 
 Lemma lookup_answer id hi : lookup id = Some hi -> hi_has hi = true ->
-  std_reply_id id = Some (hi_rid hi) /\ hi_kind hi = kind_of_id id /\ hi_rid hi < 65536.
+  std_reply_id id = Some (hi_rid hi) /\ hi_kind hi = kind_of_id id /\ 0 < hi_rid hi < 65536.
 Proof.
   intros E Hh. apply lookup_some in E. unfold entry_ok in E.
+  apply andb_true_iff in E. destruct E as [E E5].
   apply andb_true_iff in E. destruct E as [E E4].
   apply andb_true_iff in E. destruct E as [E E3].
   apply andb_true_iff in E. destruct E as [_ E2].
-  rewrite Hh in *. apply optN_eqb_eq in E2. cbn [negb orb] in E3. apply rkind_eqb_eq in E3.
-  repeat split; auto. lia.
+  rewrite Hh in *. apply optN_eqb_eq in E2. cbn [negb orb] in E3, E5. apply rkind_eqb_eq in E3.
+  repeat split; auto; lia.
 Qed.
 
 Lemma lookup_silent id hi : lookup id = Some hi -> hi_has hi = false -> std_reply_id id = None.
@@ -312,3 +314,697 @@ Proof.
 Qed.
 Lemma final_app c s1 s2 : final c (s1 ++ s2) = final (final c s1) s2.
 Proof. revert c. induction s1 as [|mv s1 IH]; intros c. reflexivity. cbn [app]. now rewrite !final_cons, IH. Qed.
+
+(* ------------------------------------------------------------------------------------------ *)
+(* Which delivered messages are answered                                                      *)
+(* ------------------------------------------------------------------------------------------ *)
+Definition dmsg_wf (d : dmsg) : Prop := decoded_header (d_m d) /\ bytes (m_body (d_m d)).
+
+Lemma answered_unreg d : lookup (m_id (d_m d)) = None -> answered d = false.
+Proof.
+  intros H. apply lookup_none in H. destruct H as [_ H]. unfold answered. rewrite H. apply andb_false_r.
+Qed.
+
+Lemma answered_reissue d : is_reissue d = true -> answered d = false.
+Proof.
+  unfold is_reissue, REISSUE. intros H. apply N.eqb_eq in H. unfold answered. rewrite H.
+  change (std_reply_id 32771) with (@None N). apply andb_false_r.
+Qed.
+
+Lemma answered_incomplete d : has_complete d = false -> answered d = false.
+Proof. intros H. unfold answered. now rewrite H. Qed.
+
+(* the wire of an automatic reply *)
+Definition reply_wire (c : conn) (d : dmsg) (rid : N) (body : list N) : wire :=
+  {| w_kind := WReply; w_src := Some d; w_hdr := d_m d; w_rid := rid; w_ps := c_seq c; w_body := body |}.
+
+(* defaultReplyEvent: the head of msgChan is answered iff [answered] says so, and then with the
+   reply type of the standard's table and the body of the registered type *)
+Lemma writer_reply_spec c d q : c_q c = d :: q ->
+  if answered d then
+    exists rid body h',
+      std_reply_id (m_id (d_m d)) = Some rid /\ 0 < rid < 65536 /\
+      reply_body (kind_of_id (m_id (d_m d))) (c_h c) (d_m d) = (h', Some body) /\
+      writer_reply c = emit c q (c_rq c) h' (reply_wire c d rid body)
+                         [OWriteH d (wire_bytes (reply_wire c d rid body));
+                          OWriteE d (wire_bytes (reply_wire c d rid body))]
+  else exists h', writer_reply c = quiet c q (c_rq c) h' /\
+       (h' = c_h c \/ exists k, h' = fst (reply_body k (c_h c) (d_m d))).
+Proof.
+  intros Hq. unfold writer_reply. rewrite Hq.
+  destruct (has_complete d) eqn:Hc.
+  2:{ rewrite (answered_incomplete d Hc). eauto. }
+  destruct (lookup (m_id (d_m d))) as [hi|] eqn:Hl.
+  2:{ rewrite (answered_unreg d Hl). eauto. }
+  destruct (hi_has hi) eqn:Hh.
+  2:{ unfold answered. rewrite (lookup_silent _ _ Hl Hh), andb_false_r. eauto. }
+  destruct (lookup_answer _ _ Hl Hh) as (Hr & Hk & Hrid).
+  rewrite Hk.
+  pose proof (reply_body_none (m_id (d_m d)) (c_h c) (d_m d) eq_refl) as Hn.
+  destruct (reply_body (kind_of_id (m_id (d_m d))) (c_h c) (d_m d)) as [h' [body|]] eqn:Hb; cbn [snd] in Hn.
+  - assert (A : answered d = true).
+    { unfold answered. rewrite Hc, Hr. cbn [andb].
+      destruct (auth_too_short (d_m d)); [|reflexivity]. destruct Hn as [_ Hn]. discriminate (Hn eq_refl). }
+    rewrite A. exists (hi_rid hi), body, h'. repeat split; auto; lia.
+  - assert (A : answered d = false).
+    { unfold answered. rewrite Hc, Hr. cbn [andb]. destruct Hn as [Hn _]. now rewrite (Hn eq_refl). }
+    rewrite A. exists h'. split; auto. right. exists (kind_of_id (m_id (d_m d))). now rewrite Hb.
+Qed.
+
+Lemma reply_wire_ok c d rid body h' :
+  std_reply_id (m_id (d_m d)) = Some rid ->
+  reply_body (kind_of_id (m_id (d_m d))) (c_h c) (d_m d) = (h', Some body) ->
+  reply_ok (reply_wire c d rid body).
+Proof.
+  intros Hr Hb. unfold reply_ok, reply_wire. cbn [w_src w_hdr w_rid w_body].
+  repeat split; auto. intros W B. apply (reply_body_std (c_h c)); auto. now rewrite Hb.
+Qed.
+
+(* ------------------------------------------------------------------------------------------ *)
+(* Every schedule: the automatic replies are the answered messages, in arrival order          *)
+(* ------------------------------------------------------------------------------------------ *)
+Definition hand_l (c : conn) : list dmsg := match c_hand c with Some d => [d] | None => [] end.
+(* answered messages the connection still holds, in arrival order *)
+Definition phi (c : conn) : list dmsg := filter answered (c_q c ++ hand_l c ++ c_pending c).
+
+Lemma replies_emit w cb :
+  (forall o, In o cb -> match o with OWrite _ => False | _ => True end) ->
+  writes (OWrite w :: cb) = [w].
+Proof.
+  intros H. unfold writes. cbn [flat_map app]. f_equal.
+  induction cb as [|o cb IH]; cbn [flat_map]. reflexivity.
+  pose proof (H o (or_introl eq_refl)) as Ho. destruct o; try contradiction; cbn [app]; apply IH;
+    intros o' Ho'; apply H; now right.
+Qed.
+
+Lemma writes_cb2 w a b d1 d2 : writes [OWrite w; OWriteH d1 a; OWriteE d2 b] = [w].
+Proof. reflexivity. Qed.
+Lemma writes_cb0 w : writes [OWrite w] = [w].
+Proof. reflexivity. Qed.
+
+Lemma phi_step c mv : mv <> MAbsorb ->
+  srcs (replies (snd (step c mv))) ++ phi (fst (step c mv)) = phi c.
+Proof.
+  intros Hmv. destruct c as [pend hand q rq sq h]. unfold phi, hand_l.
+  destruct mv as [| | | | |hh cmd body]; cbn [step]; try congruence.
+  - (* MLook *)
+    unfold reader_look. cbn [c_hand c_pending c_q c_rq c_seq c_h].
+    destruct hand as [d0|]; [reflexivity|]. destruct pend as [|d rest]; [reflexivity|].
+    destruct (lookup (m_id (d_m d))) eqn:Hl; cbn [fst snd c_hand c_pending c_q].
+    + replace (srcs (replies (if is_reissue d then [] else if has_complete d then [OReadH d; OReadE d] else []))) with (@nil dmsg)
+        by (destruct (is_reissue d), (has_complete d); reflexivity).
+      reflexivity.
+    + cbn [replies writes flat_map app filter srcs].
+      rewrite !filter_app. cbn [filter]. now rewrite (answered_unreg d Hl).
+  - (* MSend *)
+    unfold reader_send. cbn [c_hand c_pending c_q c_rq c_seq c_h].
+    destruct hand as [d|]; [|reflexivity].
+    destruct (is_reissue d) eqn:Hr.
+    + destruct (len rq <? REISSUE_CAP); [|reflexivity]. cbn [fst snd c_hand c_pending c_q app].
+      cbn [replies writes flat_map app filter srcs].
+      rewrite !filter_app. cbn [filter]. now rewrite (answered_reissue d Hr).
+    + destruct (len q <? MSG_CAP); [|reflexivity]. cbn [fst snd c_hand c_pending c_q app].
+      cbn [replies writes flat_map filter srcs]. now rewrite <- app_assoc.
+  - (* MReply *)
+    destruct q as [|d q]; [reflexivity|].
+    pose proof (writer_reply_spec {| c_pending := pend; c_hand := hand; c_q := d :: q; c_rq := rq; c_seq := sq; c_h := h |} d q eq_refl) as S.
+    cbn [c_hand c_pending c_q app filter]. destruct (answered d).
+    + destruct S as (rid & body & h' & _ & _ & _ & ->). unfold emit. cbn [fst snd c_hand c_pending c_q].
+      unfold replies. rewrite writes_cb2. reflexivity.
+    + destruct S as (h' & -> & _). reflexivity.
+  - (* MRereq *)
+    unfold writer_rereq. cbn [c_hand c_pending c_q c_rq c_seq c_h].
+    destruct rq as [|d rq']; [reflexivity|]. unfold emit. cbn [fst snd c_hand c_pending c_q].
+    destruct (has_complete d); reflexivity.
+  - (* MCmd *) reflexivity.
+Qed.
+
+Lemma no_absorb_cons mv s : no_absorb (mv :: s) = true -> mv <> MAbsorb /\ no_absorb s = true.
+Proof.
+  unfold no_absorb. cbn [forallb]. intros H. apply andb_true_iff in H. destruct H as [H1 H2].
+  split; auto. intros ->. discriminate.
+Qed.
+
+(* at every moment of every history: replies written so far ++ answered messages still held
+   = the answered messages, in arrival order *)
+Theorem replies_any_schedule c s : no_absorb s = true ->
+  srcs (replies (trace c s)) ++ phi (final c s) = phi c.
+Proof.
+  revert c. induction s as [|mv s IH]; intros c H. reflexivity.
+  apply no_absorb_cons in H. destruct H as [H1 H2].
+  rewrite trace_cons, final_cons, replies_app, srcs_app, <- app_assoc, IH by assumption.
+  now apply phi_step.
+Qed.
+
+Lemma phi_init ms : phi (init ms) = filter answered ms.
+Proof. reflexivity. Qed.
+
+Lemma phi_drained c : drained c = true -> phi c = [].
+Proof.
+  destruct c as [pend hand q rq sq h]. unfold drained, phi, hand_l. cbn [c_pending c_hand c_q c_rq].
+  destruct pend; [|discriminate]. destruct hand; [discriminate|]. destruct q; [|discriminate]. reflexivity.
+Qed.
+
+(* every automatic reply is the one the standard prescribes for its request *)
+Lemma step_replies_ok c mv : Forall reply_ok (replies (snd (step c mv))).
+Proof.
+  destruct c as [pend hand q rq sq h].
+  destruct mv as [| | | | |hh cmd body]; cbn [step].
+  - unfold reader_look. cbn [c_hand c_pending].
+    destruct hand; [constructor|]. destruct pend as [|d rest]; [constructor|].
+    destruct (lookup (m_id (d_m d))); cbn [snd]; [|constructor].
+    destruct (is_reissue d), (has_complete d); constructor.
+  - unfold reader_send. cbn [c_hand c_rq c_q]. destruct hand as [d|]; [|constructor].
+    destruct (is_reissue d); [destruct (len rq <? REISSUE_CAP)|destruct (len q <? MSG_CAP)]; constructor.
+  - destruct q as [|d q]; [constructor|].
+    set (c := {| c_pending := pend; c_hand := hand; c_q := d :: q; c_rq := rq; c_seq := sq; c_h := h |}).
+    pose proof (writer_reply_spec c d q eq_refl) as S.
+    destruct (answered d).
+    + destruct S as (rid & body & h' & Hr & _ & Hb & ->). unfold emit. cbn [snd].
+      unfold replies. rewrite writes_cb2. cbn [filter is_reply_wire reply_wire w_kind].
+      constructor; [|constructor]. eapply reply_wire_ok; eauto.
+    + destruct S as (h' & -> & _). constructor.
+  - unfold writer_absorb. cbn [c_q]. destruct q; constructor.
+  - unfold writer_rereq. cbn [c_rq]. destruct rq as [|d rq']; [constructor|]. unfold emit. cbn [snd].
+    destruct (has_complete d); constructor.
+  - constructor.
+Qed.
+
+Theorem replies_ok_any_schedule c s : Forall reply_ok (replies (trace c s)).
+Proof.
+  revert c. induction s as [|mv s IH]; intros c. constructor.
+  rewrite trace_cons, replies_app. apply Forall_app. split; [apply step_replies_ok|apply IH].
+Qed.
+
+(* ------------------------------------------------------------------------------------------ *)
+(* Sizes: every automatic reply is a frame the decoder accepts                                *)
+(* ------------------------------------------------------------------------------------------ *)
+Lemma reply_body_hstate k st m : hstate_ok st -> bytes (m_body m) -> hstate_ok (fst (reply_body k st m)).
+Proof.
+  unfold hstate_ok. intros Hs Hb. destruct k; unfold reply_body; cbv beta iota zeta; cbn [fst]; auto.
+  - destruct (auth_code m); cbn [fst]; auto.
+  - destruct (len (m_body m) <? 36); cbn [fst s_fname]; auto.
+  - destruct (len (m_body m) <? 6); cbn [fst]; auto.
+    destruct (negb (len (m_body m) =? 6 + at_ (m_body m) 0)); cbn [s_fname]; auto.
+    pose proof (sub_length_le (m_body m) 1 (1 + at_ (m_body m) 0)).
+    pose proof (bytes_at0 _ Hb). lia.
+Qed.
+
+Definition conn_wf (c : conn) : Prop :=
+  Forall dmsg_wf (c_q c) /\ Forall dmsg_wf (c_rq c) /\ Forall dmsg_wf (hand_l c) /\
+  Forall dmsg_wf (c_pending c) /\ hstate_ok (c_h c) /\ c_seq c < 65536.
+
+Definition wire_ok (w : wire) : Prop :=
+  decoded_header (w_hdr w) /\ 0 < w_rid w < 65536 /\ w_ps w < 65536 /\ (length (w_body w) <= 1023)%nat.
+
+Lemma next_seq_lt s : next_seq s < 65536.
+Proof. unfold next_seq. lia. Qed.
+
+Lemma Forall_snoc {A} (P : A -> Prop) l x : Forall P l -> P x -> Forall P (l ++ [x]).
+Proof. intros. apply Forall_app. split; auto. Qed.
+
+Lemma step_wf c mv : conn_wf c ->
+  conn_wf (fst (step c mv)) /\ Forall wire_ok (replies (snd (step c mv))).
+Proof.
+  destruct c as [pend hand q rq sq h]. unfold conn_wf, hand_l. cbn [c_pending c_hand c_q c_rq c_seq c_h].
+  intros (Wq & Wrq & Wh & Wp & Hh & Hs).
+  destruct mv as [| | | | |hh cmd body]; cbn [step].
+  - unfold reader_look. cbn [c_hand c_pending c_q c_rq c_seq c_h].
+    destruct hand as [d0|]. { cbn [fst snd c_pending c_hand c_q c_rq c_seq c_h]. repeat split; auto. constructor. }
+    destruct pend as [|d rest]. { cbn [fst snd c_pending c_hand c_q c_rq c_seq c_h]. repeat split; auto. constructor. }
+    inversion Wp as [|? ? Wd Wrest]; subst.
+    destruct (lookup (m_id (d_m d))); cbn [fst snd c_pending c_hand c_q c_rq c_seq c_h].
+    + repeat split; auto. destruct (is_reissue d), (has_complete d); constructor.
+    + repeat split; auto. constructor.
+  - unfold reader_send. cbn [c_hand c_pending c_q c_rq c_seq c_h].
+    destruct hand as [d|]. 2:{ cbn [fst snd c_pending c_hand c_q c_rq c_seq c_h]. repeat split; auto. constructor. }
+    inversion Wh as [|? ? Wd _]; subst.
+    destruct (is_reissue d).
+    + destruct (len rq <? REISSUE_CAP); cbn [fst snd c_pending c_hand c_q c_rq c_seq c_h];
+        repeat split; auto using Forall_snoc; constructor.
+    + destruct (len q <? MSG_CAP); cbn [fst snd c_pending c_hand c_q c_rq c_seq c_h];
+        repeat split; auto using Forall_snoc; constructor.
+  - destruct q as [|d q]. { cbn [writer_reply c_q fst snd c_pending c_hand c_rq c_seq c_h]. repeat split; auto. constructor. }
+    inversion Wq as [|? ? Wd Wq']; subst. destruct Wd as [Wd1 Wd2].
+    set (c := {| c_pending := pend; c_hand := hand; c_q := d :: q; c_rq := rq; c_seq := sq; c_h := h |}).
+    pose proof (writer_reply_spec c d q eq_refl) as S.
+    destruct (answered d).
+    + destruct S as (rid & body & h' & Hr & Hrid & Hb & ->). unfold emit. cbn [fst snd c_pending c_hand c_q c_rq c_seq c_h].
+      destruct (reply_body_size _ _ _ _ _ Hb Hh Wd1 Wd2) as [Sz Hh'].
+      repeat split; auto using next_seq_lt.
+      unfold replies. rewrite writes_cb2. cbn [filter is_reply_wire reply_wire w_kind].
+      constructor; [|constructor]. unfold wire_ok. cbn [reply_wire w_hdr w_rid w_ps w_body c_seq c].
+      split; [exact Wd1|]. repeat split; auto; lia.
+    + destruct S as (h' & -> & Hh'). unfold quiet. cbn [fst snd c_pending c_hand c_q c_rq c_seq c_h].
+      repeat split; auto; [|constructor].
+      destruct Hh' as [->|[k ->]]; auto. now apply reply_body_hstate.
+  - unfold writer_absorb. cbn [c_q]. destruct q as [|d q]; [cbn [fst snd c_pending c_hand c_q c_rq c_seq c_h]; repeat split; auto; constructor|].
+    inversion Wq; subst. unfold quiet. cbn [fst snd c_pending c_hand c_q c_rq c_seq c_h]. repeat split; auto. constructor.
+  - unfold writer_rereq. cbn [c_rq]. destruct rq as [|d rq']; [cbn [fst snd c_pending c_hand c_q c_rq c_seq c_h]; repeat split; auto; constructor|].
+    inversion Wrq; subst. unfold emit. cbn [fst snd c_pending c_hand c_q c_rq c_seq c_h].
+    repeat split; auto using next_seq_lt. destruct (has_complete d); constructor.
+  - unfold writer_cmd, emit. cbn [fst snd c_pending c_hand c_q c_rq c_seq c_h].
+    repeat split; auto using next_seq_lt. constructor.
+Qed.
+
+Lemma trace_wf c s : conn_wf c -> Forall wire_ok (replies (trace c s)) /\ conn_wf (final c s).
+Proof.
+  revert c. induction s as [|mv s IH]; intros c W. { split; [constructor|exact W]. }
+  destruct (step_wf c mv W) as [W1 W2]. destruct (IH _ W1) as [I1 I2].
+  rewrite trace_cons, final_cons, replies_app. split; auto. apply Forall_app. auto.
+Qed.
+
+Lemma init_wf ms : Forall dmsg_wf ms -> conn_wf (init ms).
+Proof.
+  intros H. unfold conn_wf, init, hand_l, hstate_ok. cbn [c_q c_rq c_hand c_pending c_h c_seq hstate0 s_fname length].
+  repeat split; auto; try constructor. lia.
+Qed.
+
+(* the decoded reply: type, addressing, platform serial, no fragment, body *)
+Lemma wire_decodes w : wire_ok w ->
+  decode (wire_bytes w) = Ok (encoded_msg (w_hdr w) (w_rid w) (w_ps w) (w_body w)).
+Proof.
+  intros (H1 & H2 & H3 & H4). unfold wire_bytes. apply decode_encode; auto. lia.
+Qed.
+
+Lemma reply_decoded w d : wire_ok w -> reply_ok w -> w_src w = Some d ->
+  exists r, decode (wire_bytes w) = Ok r /\
+    Some (m_id r) = std_reply_id (m_id (d_m d)) /\
+    m_ver r = m_ver (d_m d) /\ m_bcd r = m_bcd (d_m d) /\ phone_of r = phone_of (d_m d) /\
+    m_serial r = w_ps w /\ m_frag r = 0 /\ m_enc r = m_enc (d_m d) /\
+    (body_wf (d_m d) = true -> bytes (m_body (d_m d)) -> m_body r = std_body (d_m d)).
+Proof.
+  intros Wo Ro Hs. exists (encoded_msg (w_hdr w) (w_rid w) (w_ps w) (w_body w)).
+  split. now apply wire_decodes.
+  unfold reply_ok in Ro. rewrite Hs in Ro. destruct Ro as (Rh & Rr & Rb).
+  destruct Wo as (_ & Hrid & _ & _).
+  unfold encoded_msg, phone_of. cbn [m_id m_ver m_bcd m_serial m_frag m_enc m_body].
+  replace (w_rid w =? 0) with false by lia. rewrite Rh. repeat split; auto.
+Qed.
+
+(* ------------------------------------------------------------------------------------------ *)
+(* Platform serial numbers of everything written                                              *)
+(* ------------------------------------------------------------------------------------------ *)
+Lemma step_seq c mv :
+  (writes (snd (step c mv)) = [] /\ c_seq (fst (step c mv)) = c_seq c) \/
+  (exists w, writes (snd (step c mv)) = [w] /\ w_ps w = c_seq c /\ c_seq (fst (step c mv)) = next_seq (c_seq c)).
+Proof.
+  destruct c as [pend hand q rq sq h].
+  destruct mv as [| | | | |hh cmd body]; cbn [step].
+  - left. unfold reader_look. cbn [c_hand c_pending c_q c_rq c_seq c_h].
+    destruct hand; [split; reflexivity|]. destruct pend as [|d rest]; [split; reflexivity|].
+    destruct (lookup (m_id (d_m d))); cbn [fst snd c_seq]; [|split; reflexivity].
+    destruct (is_reissue d), (has_complete d); split; reflexivity.
+  - left. unfold reader_send. cbn [c_hand c_pending c_q c_rq c_seq c_h]. destruct hand as [d|]; [|split; reflexivity].
+    destruct (is_reissue d); [destruct (len rq <? REISSUE_CAP)|destruct (len q <? MSG_CAP)]; split; reflexivity.
+  - destruct q as [|d q]; [left; split; reflexivity|].
+    set (c := {| c_pending := pend; c_hand := hand; c_q := d :: q; c_rq := rq; c_seq := sq; c_h := h |}).
+    pose proof (writer_reply_spec c d q eq_refl) as S.
+    destruct (answered d).
+    + destruct S as (rid & body & h' & _ & _ & _ & ->). right. eexists. unfold emit. cbn [fst snd c_seq].
+      rewrite writes_cb2. repeat split; reflexivity.
+    + destruct S as (h' & -> & _). left. split; reflexivity.
+  - left. unfold writer_absorb. cbn [c_q]. destruct q; split; reflexivity.
+  - unfold writer_rereq. cbn [c_rq]. destruct rq as [|d rq']; [left; split; reflexivity|]. right.
+    eexists. unfold emit. cbn [fst snd c_seq]. destruct (has_complete d); repeat split; reflexivity.
+  - right. eexists. unfold writer_cmd, emit. cbn [fst snd c_seq]. repeat split; reflexivity.
+Qed.
+
+Lemma seq_map_shift {B} (f : nat -> B) n : map f (seq 1 n) = map (fun k => f (S k)) (seq 0 n).
+Proof. rewrite <- seq_shift, map_map. reflexivity. Qed.
+
+Theorem serials_any_schedule c s : c_seq c < 65536 ->
+  map w_ps (writes (trace c s)) =
+  map (fun k => (c_seq c + N.of_nat k) mod 65536) (seq 0 (length (writes (trace c s)))).
+Proof.
+  revert c. induction s as [|mv s IH]; intros c H. reflexivity.
+  rewrite trace_cons, writes_app.
+  destruct (step_seq c mv) as [[E1 E2]|(w & E1 & E2 & E3)]; rewrite E1.
+  - cbn [app]. rewrite IH, E2 by (rewrite E2; exact H). reflexivity.
+  - cbn [app map length seq]. rewrite seq_map_shift, IH by (rewrite E3; apply next_seq_lt).
+    rewrite E2, E3. f_equal.
+    + rewrite N.add_0_r. symmetry. apply N.mod_small. exact H.
+    + apply map_ext. intros k. unfold next_seq. rewrite Nat2N.inj_succ. lia.
+Qed.
+
+Lemma serials_init ms s :
+  map w_ps (writes (trace (init ms) s)) = map serial_no (seq 0 (length (writes (trace (init ms) s)))).
+Proof.
+  rewrite serials_any_schedule by (cbn; lia). apply map_ext. intros k. reflexivity.
+Qed.
+
+(* ------------------------------------------------------------------------------------------ *)
+(* Callbacks                                                                                  *)
+(* ------------------------------------------------------------------------------------------ *)
+Lemma lookup_registered id hi : lookup id = Some hi -> std_registered id = true.
+Proof. intros H. pose proof (reply_table id) as [T _]. rewrite H in T. auto. Qed.
+Lemma lookup_unregistered id : lookup id = None -> std_registered id = false.
+Proof. intros H. now apply lookup_none in H. Qed.
+
+(* reader side: one report per delivered message, in delivery order *)
+Lemma reader_step c mv :
+  reader_obs (snd (step c mv)) ++ flat_map read_report (c_pending (fst (step c mv)))
+  = flat_map read_report (c_pending c).
+Proof.
+  destruct c as [pend hand q rq sq h].
+  destruct mv as [| | | | |hh cmd body]; cbn [step].
+  - unfold reader_look. cbn [c_hand c_pending c_q c_rq c_seq c_h].
+    destruct hand; [reflexivity|]. destruct pend as [|d rest]; [reflexivity|].
+    cbn [flat_map]. unfold read_report at 2. unfold handled.
+    destruct (lookup (m_id (d_m d))) eqn:Hl; cbn [fst snd c_pending].
+    + rewrite (lookup_registered _ _ Hl). cbn [negb andb].
+      destruct (is_reissue d), (has_complete d); reflexivity.
+    + rewrite (lookup_unregistered _ Hl). reflexivity.
+  - unfold reader_send. cbn [c_hand c_pending c_q c_rq c_seq c_h]. destruct hand as [d|]; [|reflexivity].
+    destruct (is_reissue d); [destruct (len rq <? REISSUE_CAP)|destruct (len q <? MSG_CAP)]; reflexivity.
+  - destruct q as [|d q]; [reflexivity|].
+    set (c := {| c_pending := pend; c_hand := hand; c_q := d :: q; c_rq := rq; c_seq := sq; c_h := h |}).
+    pose proof (writer_reply_spec c d q eq_refl) as S.
+    destruct (answered d).
+    + destruct S as (rid & body & h' & _ & _ & _ & ->). reflexivity.
+    + destruct S as (h' & -> & _). reflexivity.
+  - unfold writer_absorb. cbn [c_q]. destruct q; reflexivity.
+  - unfold writer_rereq. cbn [c_rq]. destruct rq as [|d rq']; [reflexivity|]. unfold emit. cbn [fst snd c_pending].
+    destruct (has_complete d); reflexivity.
+  - reflexivity.
+Qed.
+
+Theorem reader_reports c s :
+  reader_obs (trace c s) ++ flat_map read_report (c_pending (final c s)) = flat_map read_report (c_pending c).
+Proof.
+  revert c. induction s as [|mv s IH]; intros c. reflexivity.
+  rewrite trace_cons, final_cons, reader_obs_app, <- app_assoc, IH. apply reader_step.
+Qed.
+
+Lemma answered_complete d : answered d = true -> has_complete d = true.
+Proof. unfold answered. intros H. apply andb_true_iff in H. tauto. Qed.
+
+(* writer side: every write is followed at once by its write callbacks, carrying the bytes sent *)
+Lemma writer_step c mv : writer_obs (snd (step c mv)) = flat_map wire_report (writes (snd (step c mv))).
+Proof.
+  destruct c as [pend hand q rq sq h].
+  destruct mv as [| | | | |hh cmd body]; cbn [step].
+  - unfold reader_look. cbn [c_hand c_pending c_q c_rq c_seq c_h].
+    destruct hand; [reflexivity|]. destruct pend as [|d rest]; [reflexivity|].
+    destruct (lookup (m_id (d_m d))); cbn [snd]; [|reflexivity].
+    destruct (is_reissue d), (has_complete d); reflexivity.
+  - unfold reader_send. cbn [c_hand c_pending c_q c_rq c_seq c_h]. destruct hand as [d|]; [|reflexivity].
+    destruct (is_reissue d); [destruct (len rq <? REISSUE_CAP)|destruct (len q <? MSG_CAP)]; reflexivity.
+  - destruct q as [|d q]; [reflexivity|].
+    set (c := {| c_pending := pend; c_hand := hand; c_q := d :: q; c_rq := rq; c_seq := sq; c_h := h |}).
+    pose proof (writer_reply_spec c d q eq_refl) as S.
+    destruct (answered d) eqn:A.
+    + destruct S as (rid & body & h' & _ & _ & _ & ->). unfold emit. cbn [snd].
+      rewrite writes_cb2. cbn [flat_map app]. unfold wire_report.
+      cbn [reply_wire w_kind w_src]. rewrite (answered_complete d A). reflexivity.
+    + destruct S as (h' & -> & _). reflexivity.
+  - unfold writer_absorb. cbn [c_q]. destruct q; reflexivity.
+  - unfold writer_rereq. cbn [c_rq]. destruct rq as [|d rq']; [reflexivity|]. unfold emit. cbn [snd].
+    destruct (has_complete d) eqn:Hc.
+    + rewrite writes_cb2. cbn [flat_map app]. unfold wire_report. cbn [w_kind w_src]. rewrite Hc. reflexivity.
+    + rewrite writes_cb0. cbn [flat_map app]. unfold wire_report. cbn [w_kind w_src]. rewrite Hc. reflexivity.
+  - reflexivity.
+Qed.
+
+Theorem writer_reports c s : writer_obs (trace c s) = flat_map wire_report (writes (trace c s)).
+Proof.
+  revert c. induction s as [|mv s IH]; intros c. reflexivity.
+  rewrite trace_cons, writer_obs_app, writes_app, flat_map_app, IH, writer_step. reflexivity.
+Qed.
+
+(* read callback before the reply: the replies written so far answer messages whose read callbacks
+   have already run *)
+Definition psi (c : conn) : list dmsg := filter answered (c_q c ++ hand_l c).
+
+Lemma answered_handled d : answered d = true -> is_reissue d = false /\ has_complete d = true.
+Proof.
+  intros A. split; [|now apply answered_complete].
+  destruct (is_reissue d) eqn:R; auto. rewrite (answered_reissue d R) in A. discriminate.
+Qed.
+
+Lemma rbw_step c mv : mv <> MAbsorb ->
+  psi c ++ filter answered (read_srcs (snd (step c mv))) =
+  srcs (replies (snd (step c mv))) ++ psi (fst (step c mv)).
+Proof.
+  intros Hmv. destruct c as [pend hand q rq sq h]. unfold psi, hand_l.
+  destruct mv as [| | | | |hh cmd body]; cbn [step]; try congruence.
+  - unfold reader_look. cbn [c_hand c_pending c_q c_rq c_seq c_h].
+    destruct hand as [d0|]; [cbn [fst snd read_srcs flat_map filter replies writes srcs app]; now rewrite app_nil_r|].
+    destruct pend as [|d rest]; [cbn [fst snd read_srcs flat_map filter replies writes srcs app]; now rewrite app_nil_r|].
+    destruct (lookup (m_id (d_m d))) eqn:Hl; cbn [fst snd c_hand c_q].
+    + rewrite !filter_app. cbn [filter app].
+      destruct (answered d) eqn:A.
+      * destruct (answered_handled d A) as [-> ->]. cbn [read_srcs flat_map app filter]. rewrite A.
+        change (srcs (replies [OReadH d; OReadE d])) with (@nil dmsg). now rewrite app_nil_r.
+      * replace (filter answered (read_srcs (if is_reissue d then [] else if has_complete d then [OReadH d; OReadE d] else [])))
+          with (@nil dmsg).
+        2:{ destruct (is_reissue d), (has_complete d); cbn [read_srcs flat_map app filter]; try reflexivity. now rewrite A. }
+        replace (srcs (replies (if is_reissue d then [] else if has_complete d then [OReadH d; OReadE d] else []))) with (@nil dmsg)
+          by (destruct (is_reissue d), (has_complete d); reflexivity).
+        cbn [app]. now rewrite !app_nil_r.
+    + cbn [read_srcs flat_map filter replies writes srcs app]. now rewrite app_nil_r.
+  - unfold reader_send. cbn [c_hand c_pending c_q c_rq c_seq c_h].
+    destruct hand as [d|]; [|cbn [fst snd read_srcs flat_map filter replies writes srcs app]; now rewrite app_nil_r].
+    destruct (is_reissue d) eqn:Hr.
+    + destruct (len rq <? REISSUE_CAP); cbn [fst snd c_hand c_q read_srcs flat_map filter replies writes srcs app];
+        rewrite ?app_nil_r; [|reflexivity].
+      rewrite filter_app. cbn [filter]. rewrite (answered_reissue d Hr). now rewrite app_nil_r.
+    + destruct (len q <? MSG_CAP); cbn [fst snd c_hand c_q read_srcs flat_map filter replies writes srcs app];
+        now rewrite ?app_nil_r.
+  - destruct q as [|d q]; [cbn [writer_reply c_q fst snd read_srcs flat_map filter replies writes srcs app]; now rewrite app_nil_r|].
+    set (c := {| c_pending := pend; c_hand := hand; c_q := d :: q; c_rq := rq; c_seq := sq; c_h := h |}).
+    pose proof (writer_reply_spec c d q eq_refl) as S.
+    subst c. cbn [c_hand c_q app filter] in *. destruct (answered d).
+    + destruct S as (rid & body & h' & _ & _ & _ & ->). unfold emit. cbn [fst snd c_hand c_q].
+      unfold replies. rewrite writes_cb2. cbn [read_srcs flat_map app filter is_reply_wire reply_wire w_kind srcs w_src].
+      now rewrite app_nil_r.
+    + destruct S as (h' & -> & _). unfold quiet. cbn [fst snd c_hand c_q read_srcs flat_map filter replies writes srcs app].
+      now rewrite app_nil_r.
+  - unfold writer_rereq. cbn [c_hand c_pending c_q c_rq c_seq c_h].
+    destruct rq as [|d rq']; [cbn [fst snd read_srcs flat_map filter replies writes srcs app]; now rewrite app_nil_r|].
+    unfold emit. cbn [fst snd c_hand c_q]. destruct (has_complete d); cbn; now rewrite app_nil_r.
+  - cbn. now rewrite app_nil_r.
+Qed.
+
+Theorem read_before_write c s R W : no_absorb s = true -> R = W ++ psi c ->
+  R ++ filter answered (read_srcs (trace c s)) = W ++ srcs (replies (trace c s)) ++ psi (final c s).
+Proof.
+  revert c R W. induction s as [|mv s IH]; intros c R W H E.
+  - cbn [trace final read_srcs flat_map filter replies writes srcs app]. now rewrite app_nil_r.
+  - apply no_absorb_cons in H. destruct H as [H1 H2].
+    rewrite trace_cons, final_cons, read_srcs_app, filter_app, replies_app, srcs_app.
+    rewrite app_assoc.
+    rewrite (IH (fst (step c mv)) (R ++ filter answered (read_srcs (snd (step c mv))))
+                (W ++ srcs (replies (snd (step c mv)))) H2).
+    + now rewrite <- !app_assoc.
+    + rewrite E, <- !app_assoc. f_equal. now apply rbw_step.
+Qed.
+
+(* ------------------------------------------------------------------------------------------ *)
+(* The sequential schedule (what the harness plays) is a complete history                     *)
+(* ------------------------------------------------------------------------------------------ *)
+Definition idle (c : conn) (ms : list dmsg) : Prop :=
+  c_hand c = None /\ c_q c = [] /\ c_rq c = [] /\ c_pending c = ms.
+
+Lemma seq_moves_idle c d rest : idle c (d :: rest) -> idle (final c (seq_moves d)) rest.
+Proof.
+  destruct c as [pend hand q rq sq h]. unfold idle. cbn [c_hand c_q c_rq c_pending].
+  intros (-> & -> & -> & ->). unfold seq_moves. rewrite !final_cons. cbn [final].
+  cbn [step]. unfold reader_look. cbn [c_hand c_pending c_q c_rq c_seq c_h].
+  destruct (lookup (m_id (d_m d))) eqn:Hl; cbn [fst].
+  - unfold reader_send. cbn [c_hand c_pending c_q c_rq c_seq c_h].
+    destruct (is_reissue d) eqn:Hr.
+    + change (len (@nil dmsg) <? REISSUE_CAP) with true. cbn [fst app step].
+      unfold writer_rereq, emit. cbn [c_rq fst c_hand c_q c_pending]. auto.
+    + change (len (@nil dmsg) <? MSG_CAP) with true. cbn [fst app step].
+      match goal with |- context [writer_reply ?c] => pose proof (writer_reply_spec c d [] eq_refl) as S end.
+      destruct (answered d).
+      * destruct S as (rid & body & h' & _ & _ & _ & ->). unfold emit. cbn [fst c_rq c_hand c_q c_pending]. auto.
+      * destruct S as (h' & -> & _). unfold quiet. cbn [fst c_rq c_hand c_q c_pending]. auto.
+  - unfold reader_send. cbn [c_hand fst].
+    destruct (is_reissue d); cbn [step]; unfold writer_rereq, writer_reply; cbn [c_rq c_q fst c_hand c_pending]; auto.
+Qed.
+
+Lemma idle_drained c : idle c [] -> drained c = true.
+Proof. destruct c as [pend hand q rq sq h]. unfold idle, drained. cbn. intros (-> & -> & -> & ->). reflexivity. Qed.
+
+Lemma seq_sched_idle ms : forall c, idle c ms -> idle (final c (seq_sched ms)) [].
+Proof.
+  induction ms as [|d ms IH]; intros c I. exact I.
+  unfold seq_sched. cbn [flat_map]. rewrite final_app. apply IH. now apply seq_moves_idle.
+Qed.
+
+Lemma seq_sched_no_absorb ms : no_absorb (seq_sched ms) = true.
+Proof.
+  induction ms as [|d ms IH]. reflexivity.
+  unfold seq_sched, no_absorb in *. cbn [flat_map seq_moves app forallb]. rewrite IH.
+  destruct (is_reissue d); reflexivity.
+Qed.
+
+Lemma init_idle ms : idle (init ms) ms.
+Proof. unfold idle, init. cbn. auto. Qed.
+
+Lemma seq_sched_drained ms : drained (final (init ms) (seq_sched ms)) = true.
+Proof. apply idle_drained, seq_sched_idle, init_idle. Qed.
+
+(* conversations with platform commands in between (run_items) *)
+Lemma cmd_idle c hh cmd body ms : idle c ms -> idle (fst (step c (MCmd hh cmd body))) ms.
+Proof. destruct c. unfold idle. cbn. auto. Qed.
+
+Lemma items_moves_idle its : forall c h, idle c (items_msgs its) -> idle (final c (items_moves h its)) [].
+Proof.
+  induction its as [|[d|cmd body] its IH]; intros c h I. exact I.
+  - cbn [items_moves]. rewrite final_app. apply IH. apply seq_moves_idle. exact I.
+  - cbn [items_moves]. destruct h as [hh|]; cbn [app].
+    + rewrite final_cons. apply IH. apply cmd_idle. exact I.
+    + apply IH. exact I.
+Qed.
+
+Lemma items_moves_no_absorb its : forall h, no_absorb (items_moves h its) = true.
+Proof.
+  induction its as [|[d|cmd body] its IH]; intros h. reflexivity.
+  - cbn [items_moves]. unfold no_absorb in *. rewrite forallb_app, IH.
+    cbn [seq_moves forallb]. destruct (is_reissue d); reflexivity.
+  - cbn [items_moves]. unfold no_absorb in *. rewrite forallb_app, IH. destruct h; reflexivity.
+Qed.
+
+(* ------------------------------------------------------------------------------------------ *)
+(* Summary statements used by Props/C06.v                                                     *)
+(* ------------------------------------------------------------------------------------------ *)
+
+(* one reply per answered message, none for the others, in arrival order: every complete history *)
+Theorem one_reply_each ms s : no_absorb s = true -> drained (final (init ms) s) = true ->
+  srcs (replies (trace (init ms) s)) = filter answered ms /\
+  Forall reply_ok (replies (trace (init ms) s)).
+Proof.
+  intros H D. split; [|apply replies_ok_any_schedule].
+  pose proof (replies_any_schedule (init ms) s H) as R.
+  rewrite (phi_drained _ D), app_nil_r, phi_init in R. exact R.
+Qed.
+
+(* ... and at every moment of every history the replies written so far are a prefix of it *)
+Theorem replies_prefix ms s : no_absorb s = true ->
+  exists later, srcs (replies (trace (init ms) s)) ++ later = filter answered ms.
+Proof.
+  intros H. exists (phi (final (init ms) s)). rewrite <- phi_init. now apply replies_any_schedule.
+Qed.
+
+Theorem one_reply_each_run ms :
+  srcs (replies (run ms)) = filter answered ms /\ Forall reply_ok (replies (run ms)).
+Proof. apply one_reply_each. apply seq_sched_no_absorb. apply seq_sched_drained. Qed.
+
+Theorem one_reply_each_items its :
+  srcs (replies (run_items its)) = filter answered (items_msgs its) /\ Forall reply_ok (replies (run_items its)).
+Proof.
+  apply one_reply_each. apply items_moves_no_absorb.
+  apply idle_drained, items_moves_idle, init_idle.
+Qed.
+
+(* each reply decodes to: reply type, sender's phone and version, platform serial, prescribed body *)
+Theorem correlation ms s w : Forall dmsg_wf ms -> no_absorb s = true ->
+  In w (replies (trace (init ms) s)) ->
+  exists d r, w_src w = Some d /\ In d ms /\ answered d = true /\
+    decode (wire_bytes w) = Ok r /\
+    Some (m_id r) = std_reply_id (m_id (d_m d)) /\
+    m_ver r = m_ver (d_m d) /\ m_bcd r = m_bcd (d_m d) /\ phone_of r = phone_of (d_m d) /\
+    m_serial r = w_ps w /\ m_frag r = 0 /\ m_enc r = m_enc (d_m d) /\
+    (body_wf (d_m d) = true -> m_body r = std_body (d_m d)).
+Proof.
+  intros Wf Hs Hin.
+  destruct (trace_wf (init ms) s (init_wf ms Wf)) as [Wo _].
+  pose proof (replies_ok_any_schedule (init ms) s) as Ro.
+  rewrite Forall_forall in Wo, Ro. specialize (Wo w Hin). specialize (Ro w Hin).
+  destruct (w_src w) as [d|] eqn:Hsrc.
+  2:{ unfold reply_ok in Ro. rewrite Hsrc in Ro. contradiction. }
+  destruct (replies_prefix ms s Hs) as [later E].
+  assert (Hd : In d (filter answered ms)).
+  { rewrite <- E. apply in_or_app. left. unfold srcs. apply in_flat_map. exists w. split; auto.
+    rewrite Hsrc. now left. }
+  apply filter_In in Hd. destruct Hd as [Hd1 Hd2].
+  destruct (reply_decoded w d Wo Ro Hsrc) as (r & R1 & R2 & R3 & R4 & R5 & R6 & R7 & R8 & R9).
+  exists d, r. repeat split; auto.
+  intros B. apply R9; auto. rewrite Forall_forall in Wf. apply (Wf d Hd1).
+Qed.
+
+(* platform serials of EVERYTHING written on the connection (replies, re-request echoes, commands) *)
+Theorem serials ms s :
+  map w_ps (writes (trace (init ms) s)) = map serial_no (seq 0 (length (writes (trace (init ms) s)))).
+Proof. apply serials_init. Qed.
+
+(* callbacks *)
+Theorem callbacks_read ms s : reader_done (final (init ms) s) = true ->
+  reader_obs (trace (init ms) s) = flat_map read_report ms.
+Proof.
+  intros D. pose proof (reader_reports (init ms) s) as R.
+  unfold reader_done in D. destruct (c_pending (final (init ms) s)); [|discriminate].
+  cbn [flat_map] in R. rewrite app_nil_r in R. exact R.
+Qed.
+
+Theorem callbacks_write ms s :
+  writer_obs (trace (init ms) s) = flat_map wire_report (writes (trace (init ms) s)).
+Proof. apply writer_reports. Qed.
+
+Theorem callbacks_read_before_reply ms s : no_absorb s = true ->
+  exists queued, filter answered (read_srcs (trace (init ms) s)) = srcs (replies (trace (init ms) s)) ++ queued.
+Proof.
+  intros H. exists (psi (final (init ms) s)).
+  apply (read_before_write (init ms) s [] [] H). reflexivity.
+Qed.
+
+(* ------------------------------------------------------------------------------------------ *)
+(* Non-vacuity and concrete witnesses                                                         *)
+(* ------------------------------------------------------------------------------------------ *)
+Lemma serial_wraps k : serial_no (k + N.to_nat 65536) = serial_no k.
+Proof. unfold serial_no. rewrite Nat2N.inj_add, N2Nat.id. lia. Qed.
+
+Lemma complete_history_exists ms :
+  no_absorb (seq_sched ms) = true /\ drained (final (init ms) (seq_sched ms)) = true.
+Proof. split. apply seq_sched_no_absorb. apply seq_sched_drained. Qed.
+
+Lemma decoded_dmsg_wf f m data c : bytes f -> decode f = Ok m ->
+  dmsg_wf {| d_m := m; d_complete := c; d_data := data |}.
+Proof.
+  intros B D. split; cbn [d_m].
+  - now apply (decode_gives_decoded_header f).
+  - rewrite decode_unfold in D. destruct (unescape f) as [p| |] eqn:U; try discriminate. cbn [bind] in D.
+    pose proof (unescape_bytes f p B U) as Bp.
+    unfold parse_payload in D.
+    repeat match type of D with (if ?b then _ else _) = _ => destruct b; try discriminate end.
+    inversion D. cbn [m_body]. now apply bytes_sub.
+Qed.
+
+(* a terminal: phone 013800138000 (2013 header); heartbeat with serial 65535, registration with
+   serial 7, a general response (not answered), an unsupported id, authentication with the phone as
+   code *)
+Definition ex_hdr : msg :=
+  {| m_id := 0; m_len := 0; m_enc := 0; m_frag := 0; m_ver := 0; m_bcd := [1; 56; 0; 19; 128; 0];
+     m_serial := 0; m_sum := 0; m_no := 0; m_body := []; m_check := 0 |}.
+Definition ex_frames : list (list N) :=
+  [ encode ex_hdr 0x0002 65535 [];
+    encode ex_hdr 0x0100 7 [0; 31; 0; 110];
+    encode ex_hdr 0x0001 8 [0; 1; 129; 3; 0];
+    encode ex_hdr 0x0900 9 [1; 2];
+    encode ex_hdr 0x0102 10 [49; 51; 56; 48; 48; 49; 51; 56; 48; 48; 48] ].
+Definition ex_msgs : list dmsg :=
+  flat_map (fun f => match decode f with
+                     | Ok m => [{| d_m := m; d_complete := false; d_data := f |}]
+                     | _ => [] end) ex_frames.
+
+Lemma example_conversation :
+  map wire_bytes (writes (run ex_msgs)) =
+  [ [126; 128; 1; 0; 5; 1; 56; 0; 19; 128; 0; 0; 0; 255; 255; 0; 2; 0; 44; 126];
+    [126; 129; 0; 0; 14; 1; 56; 0; 19; 128; 0; 0; 1; 0; 7; 0; 49; 51; 56; 48; 48; 49; 51; 56; 48; 48; 48; 19; 126];
+    [126; 128; 1; 0; 5; 1; 56; 0; 19; 128; 0; 0; 2; 0; 10; 1; 2; 0; 37; 126] ] /\
+  length ex_msgs = 5%nat /\ Forall dmsg_wf ex_msgs.
+Proof.
+  split; [vm_compute; reflexivity|]. split; [vm_compute; reflexivity|].
+  unfold ex_msgs, ex_frames. cbn [flat_map].
+  repeat match goal with
+  | |- context [decode ?f] =>
+    let H := fresh "D" in let B := fresh "B" in
+    assert (B : bytes f) by (apply bytesb_spec; vm_compute; reflexivity);
+    destruct (decode f) eqn:H; [|vm_compute in H; discriminate..];
+    pose proof (decoded_dmsg_wf _ _ f false B H); clear B H
+  end.
+  cbn [app]. repeat (apply Forall_cons; [assumption|]). apply Forall_nil.
+Qed.
